@@ -45,6 +45,7 @@ class CallsMixin:
             return IterModel(None, None, setlike=v)
         if k == 'Dict':
             # iteration over keys
+            self.refuse_total_dict(v, 'iteration')
             return IterModel(None, None, setlike=('dictkeys', v))
         if k == 'Np2':
             term = self.load(v, st)
@@ -319,6 +320,7 @@ class CallsMixin:
                 st.pc.append((c == 0) == z3.ForAll([x], z3.Not(T.Sel(sterm, x))))
                 return V(INT, c)
             if k == 'Dict':
+                self.refuse_total_dict(v, 'len')
                 return V(INT, self.db.card(T.dict_dom(v.ty, self.load(v, st)), SetT(v.ty.args[0])))
             raise Unsupported(f'len of {v.ty!r}')
         if name == 'range':
@@ -384,6 +386,12 @@ class CallsMixin:
             if not vals:
                 return V(Ty('Set', (Ty('Bottom'),)), None, py=set())
             return self.to_set(vals[0], st)
+        if name == 'defaultdict':
+            if len(node.args) == 1 and isinstance(node.args[0], ast.Name) and node.args[0].id == 'int':
+                # a total map with value 0 everywhere (reads of absent keys give 0); membership / len / iteration of
+                # such a map are refused below (they would differ from Python's defaultdict)
+                return V(Ty('Dict', (Ty('Bottom'), Ty('Bottom'))), None, py={'__default__': 0})
+            raise Unsupported('defaultdict with a factory other than int')
         if name == 'dict':
             if not vals:
                 raise Unsupported('untyped empty dict')
